@@ -25,6 +25,7 @@ func init() {
 			{"C16.R2", "q", "key hash composition", c16r2},
 			{"C16.R3", "q", "value hash parameters", c16r3},
 			{"C16.R4", "q", "CRC table and register handling", c16r4},
+			{"C16.R4b", "q", "every non-empty chunk enters the CRC", c16r4b},
 			{"C13.R7", "q", "shared: hash function never replaced", c13r7},
 		},
 	})
@@ -467,4 +468,80 @@ func c16r4(c *Ctx) {
 		})
 		c.check(ok, R, f.Key+": register threaded through crc32_write", f.Pos(), "h.crc = crc32_write(h.crc, …)", "the running CRC register is not passed to and stored back from crc32_write")
 	}
+}
+
+// c16r4b: crc32.write may skip only empty input; getCRC feeds every non-empty part.
+func c16r4b(c *Ctx) {
+	const R = "C16.R4b"
+	emptyOnly := func(f *prog.Func, cond ast.Expr, arg func(ast.Expr) bool, skipWhenTrue bool) (bool, string) {
+		info := f.Info()
+		// cond must be equivalent to len(x) == 0 (skip) or len(x) > 0 (process)
+		okc := true
+		desc := types.ExprString(cond)
+		for _, a := range prog.Decompose(cond, true, nil) {
+			if a.Y == nil {
+				okc = false
+				continue
+			}
+			x, y, op := a.X, a.Y, a.Op
+			if !arg(x) {
+				x, y, op = a.Y, a.X, mirrorOp(a.Op)
+			}
+			if !arg(x) {
+				okc = false
+				continue
+			}
+			v, isC := prog.ConstInt(info, y)
+			if !isC {
+				okc = false
+				continue
+			}
+			if skipWhenTrue {
+				if !((op == token.EQL && v == 0) || (op == token.LSS && v == 1) || (op == token.LEQ && v == 0)) {
+					okc = false
+				}
+			} else {
+				if !((op == token.GTR && v == 0) || (op == token.GEQ && v == 1) || (op == token.NEQ && v == 0)) {
+					okc = false
+				}
+			}
+		}
+		return okc, desc
+	}
+	if f := c.fn(R, "store.crc32.write"); f != nil {
+		info := f.Info()
+		isLen := func(e ast.Expr) bool { return isLenOf(info, e, ast.NewIdent(f.Param(0).Name())) || isLenParam(info, e, f.Param(0)) }
+		bad := ""
+		ast.Inspect(f.Decl.Body, func(x ast.Node) bool {
+			if is, ok := x.(*ast.IfStmt); ok && f.Terminates(is.Body) {
+				if okc, d := emptyOnly(f, is.Cond, isLen, true); !okc {
+					bad = d
+				}
+			}
+			return true
+		})
+		c.check(bad == "", R, f.Key+": only empty input is skipped", f.Pos(), "no early return for non-empty data", "crc32.write returns early under `"+bad+"`, which also holds for non-empty input: such chunks (e.g. a one-byte key or value) are left out of the record CRC, so records written before no longer verify and damage to those bytes is undetectable")
+	}
+	if f := c.fn(R, "store.WriteRecord.getCRC"); f != nil {
+		info := f.Info()
+		bad := ""
+		for _, w := range f.CallsTo("store.crc32.write") {
+			for _, a := range f.Enclosing(w.Expr) {
+				if is, ok := a.(*ast.IfStmt); ok {
+					arg := w.Expr.Args[0]
+					isLen := func(e ast.Expr) bool { return isLenOf(info, e, arg) }
+					if okc, d := emptyOnly(f, is.Cond, isLen, false); !okc {
+						bad = d
+					}
+				}
+			}
+		}
+		c.check(bad == "", R, f.Key+": key and value are fed whenever they are non-empty", f.Pos(), "guards are len(x) > 0", "getCRC skips a part of the record under `"+bad+"`")
+	}
+}
+
+func isLenParam(info *types.Info, e ast.Expr, p *types.Var) bool {
+	e = prog.StripConv(info, e)
+	call, ok := e.(*ast.CallExpr)
+	return ok && prog.CalleeKey(info, call) == "builtin.len" && len(call.Args) == 1 && prog.ObjOf(info, call.Args[0]) == p
 }
